@@ -152,6 +152,15 @@ Theorem C10_status_malformed : forall c args,
   ch_status c args = (c, CErr CInvalidOnStatus).
 Proof. exact status_malformed. Qed.
 
+(* an _error answer never advances the workflow, whatever transaction it names: at most that transaction is consumed *)
+Theorem C10_error_effect : forall c tr obj args c' r,
+  ch_error c tr obj args = (c', r) ->
+  cl_state c' = cl_state c /\ cl_stream c' = cl_stream c /\ cl_app c' = cl_app c /\ cl_ser c' = cl_ser c /\
+  cl_de c' = cl_de c /\ cl_ack c' = cl_ack c /\ cl_next_tr c' = cl_next_tr c /\
+  (forall k, k <> f64_to_u32 tr -> lookup k (cl_trs c') = lookup k (cl_trs c)).
+Proof. exact error_effect. Qed.
+
+Print Assumptions C10_error_effect.
 Print Assumptions C10_status_effect.
 Print Assumptions C10_status_malformed.
 Print Assumptions C10_create_stream_result_without_number.
